@@ -1,7 +1,8 @@
 #!/usr/bin/env python3
 """copy confirmed seeded changes from the agents' output directory into /verif/seeded/<id>/"""
 import json, os, shutil, sys
-src = "/tmp/wt-out"
+src = os.environ.get("KV_OUT", "/tmp/wt-out")
+ROUND = int(os.environ.get("KV_ROUND", "1"))
 dst = "/verif/seeded"
 for pid in sorted(os.listdir(src)):
     d = os.path.join(src, pid)
@@ -16,13 +17,14 @@ for pid in sorted(os.listdir(src)):
             print("skip (not confirmed)", pid, k)
             continue
         m = json.load(open(os.path.join(d, "meta%s.json" % k)))
-        sid = "%s-%s" % (pid, k)
+        sid = "%s-%s" % (pid, k) if ROUND == 1 else "%s-r%d-%s" % (pid, ROUND, k)
         o = os.path.join(dst, sid)
         os.makedirs(o, exist_ok=True)
         shutil.copy(os.path.join(d, "patch%s.diff" % k), os.path.join(o, "patch.diff"))
         shutil.copy(os.path.join(d, "demo%s.rs" % k), os.path.join(o, "demo.rs"))
         meta = {
             "id": sid,
+            "round": ROUND,
             "property": m.get("property", pid),
             "breaks": m.get("summary"),
             "needs_to_manifest": m.get("needs_to_manifest"),
